@@ -31,7 +31,11 @@ real run : kind "script"   the real AsyncTLSStreamTransport (made by its own wra
            "lend": true    (duplex, session, bulk) the in-memory wrapped transports keep the buffer given to recv_into across a
                            suspension and fill it from a loop callback one iteration before the reader resumes (what the
                            asyncio adapter does), so that two deliveries land before either reader has looked;
-           kind "blocking" SSLStreamTransport over a socketpair, relay thread re-fragmenting, stdlib SSLSocket peer.
+           kind "blocking" SSLStreamTransport over a socketpair, relay thread re-fragmenting, stdlib SSLSocket peer
+                           (option bigcert: a 46 KiB certificate over a tiny SO_SNDBUF, retry_interval inf / small: one
+                           do_handshake() wants read, then write, then read again).
+           kind "retry"    SSLStreamTransport over a scripted SSL socket + scripted selector (vlib/c08_retry.py, oracle only):
+                           operations whose wanted direction flips between two attempts of ONE _retry() call.
 model run: script and session cases: the recorded engine answers + the observed schedule go to the Lean wrapper machine
            (endriver `tls08`), whose predicted actions (ssl calls with their arguments, lock traffic, send_all sizes and
            provenance, recv_into calls, results, final BIO state) must equal the observed ones.  blocking: decision
@@ -178,6 +182,9 @@ def run_real(case: dict) -> list[str]:
     if kind == "cancel":
         from vlib import c08_cancel as X
         return X.run_cancel(case)
+    if kind == "retry":
+        from vlib import c08_retry as T
+        return T.run_retry(case)
     return [f"harness-exc unknown kind {kind}"]
 
 
@@ -191,7 +198,7 @@ def real_for_diff(case: dict, real: list[str]) -> list[str]:
 
 
 def model_input(case: dict, real: list[str]):
-    if case.get("kind", "script") in ("multi", "bulk", "cancel"):
+    if case.get("kind", "script") in ("multi", "bulk", "cancel", "retry"):
         return None                             # oracle only
     if case.get("kind", "script") == "blocking":
         ops = [ln.split(" -> ")[0] for ln in real if ln.startswith("try ")]
@@ -215,6 +222,9 @@ def oracle(case: dict, real: list[str]) -> str | None:
     if kind == "cancel":
         from vlib import c08_cancel as X
         return X.problem(case, real)
+    if kind == "retry":
+        from vlib import c08_retry as T
+        return T.problem(case, real)
     for ln in real:
         if ln.startswith(("harness-exc", "unhandled")):
             return ln
@@ -323,7 +333,11 @@ def nontrivial(case: dict, real: list[str]) -> str | None:
     if kind == "session":
         return f"session/{case.get('role', 'client')}/{case.get('peer', 'raw')}/{case.get('ver', '1.3')}"
     if kind == "blocking":
-        return "blocking/" + case.get("role", "client")
+        big = f"/bigcert/ri-{'inf' if case.get('retry_interval') == 'inf' else 'fin'}" if case.get("bigcert") else ""
+        return "blocking/" + case.get("role", "client") + big
+    if kind == "retry":
+        from vlib import c08_retry as T
+        return T.class_key(case, real)
     if kind == "multi":
         conns = case.get("conns") or []
         nlib = sum(2 if c.get("peer", "easynet") == "easynet" else 1 for c in conns)
@@ -429,6 +443,10 @@ def shrink(case: dict):
     if kind == "cancel":
         from vlib import c08_cancel as X
         yield from X.shrink_cancel(case)
+        return
+    if kind == "retry":
+        from vlib import c08_retry as T
+        yield from T.shrink_retry(case)
         return
     if kind == "script":
         for key in ("writer2", "reader", "writer", "reads", "writes", "hs"):
@@ -702,10 +720,16 @@ def _gen_session(rng, n: int) -> dict:
 def _gen_blocking(rng, n: int) -> dict:
     frag = rng.choice([1, 7, 100, 4096, 65536])
     sizes = [0, 1, 100, 1500] if frag < 100 else [0, 1, 100, 20000, 40000]
-    return {"kind": "blocking", "seed": n, "role": rng.choice(["client", "server"]),
+    case = {"kind": "blocking", "seed": n, "role": rng.choice(["client", "server"]),
             "a2b": [rng.choice(sizes) for _ in range(rng.randint(1, 4))],
             "b2a": [rng.choice(sizes[1:]) for _ in range(rng.randint(1, 4))],
             "iter": rng.random() < 0.5, "frag": frag, "recv": rng.choice([1, 100, 16384, 70000]) if frag >= 100 else rng.choice([100, 16384])}
+    if rng.random() < 0.4:
+        # one do_handshake() that wants read, then write (its certificate flight overflows the send buffer), then read again:
+        # big server certificate (role server) / big client certificate of a mutual-TLS client (role client)
+        case.update(bigcert=rng.choice([300, 1000, 1000]), sndbuf=rng.choice([2048, 4096, 16384]),
+                    retry_interval=rng.choice(["inf", "inf", 0.05]), frag=max(frag, 1024))
+    return case
 
 
 _CAPS = [1024, 1024, 2048, 4096, 4096, 8192, 16384, 16384, 65536]
@@ -867,8 +891,11 @@ def generate(rng, tier: str, boost: int):
     multi_every = 3                                # 50 / 500 multi-transport sessions over the real asyncio adapter
     bulk_every = 3                                 # 50 / 500 big-write / coarse-fragmentation sessions (vlib/c08_bulk.py)
     from vlib import c08_cancel as X               # 150 / 1500 histories with cancelled lock waiters (vlib/c08_cancel.py)
+    from vlib import c08_retry as T                # 300 / 3000 scripted blocking operations with direction flips (vlib/c08_retry.py)
     for i in range(n_sess):
         yield _gen_session(rng, rng.randrange(1 << 30))
+        yield T.gen_retry(rng, rng.randrange(1 << 30))
+        yield T.gen_retry(rng, rng.randrange(1 << 30))
         yield X.gen_cancel(rng, rng.randrange(1 << 30))
         if i % dup_every == 0:
             yield _gen_duplex(rng, rng.randrange(1 << 30))
